@@ -33,6 +33,45 @@ def _c03_project_keep_wont(op, a):
             return "err other"
     return a
 
+import re as _re
+_C18_IMPL = _re.compile(r" used=(\d+)$")
+_C18_MODEL = _re.compile(r" cost=(\d+) mwp=([01]) w=(\d+)$")
+
+def c18_project(op, a):
+    if op.startswith("dynde "):
+        a = _C18_IMPL.sub("", a)
+        a = _C18_MODEL.sub("", a)
+    return a
+
+def c18_joint(op, impl, model, stats):
+    """dynde: real allocation (counting allocator, bytes) against the model's count `allocDyn` and the
+    proved bound `allocDyn <= w * (len + 1)` (theorem dyn_alloc_bound, for schemas with mwp=1).
+    - model side, re-checked on every case: cost <= w * (len + 1) whenever mwp = 1 (an instance of the theorem
+      evaluated by the driver: a failure means the driver and the proved definitions have come apart);
+    - successful decode: used <= 4096 + 512 * cost  (a serde_json Value is 32 bytes, a BTreeMap leaf ~632 bytes for
+      >= 3 counted units, Vec growth at most doubles; the constant is schema-independent);
+    - failed decode: used <= 4096 + 512 * cost + 512 * len (the model does not count what a failing sub-decode
+      had already allocated, e.g. a map key before its value fails; those bytes are input bytes)."""
+    if not op.startswith("dynde "): return None
+    mi, mm = _C18_IMPL.search(impl), _C18_MODEL.search(model)
+    if not mi or not mm: return None
+    used, cost, mwp, w = int(mi.group(1)), int(mm.group(1)), int(mm.group(2)), int(mm.group(3))
+    hexarg = op.rsplit(" ", 1)[-1]
+    n = (len(hexarg) - 1) // 2 if hexarg.startswith("x") else 0
+    stats["dynde_cases"] = stats.get("dynde_cases", 0) + 1
+    stats["max_used_per_cost_unit"] = max(stats.get("max_used_per_cost_unit", 0), round((max(used - 4096, 0)) / (cost + 1), 1))
+    stats["max_cost_over_bound_pct"] = max(stats.get("max_cost_over_bound_pct", 0), round(100.0 * cost / (w * (n + 1)), 1) if mwp else 0)
+    if mwp:
+        stats["mwp_cases"] = stats.get("mwp_cases", 0) + 1
+        if cost > w * (n + 1):
+            return "model allocation count %d exceeds the proved bound w*(len+1) = %d*(%d+1)" % (cost, w, n)
+    ok = impl.startswith("ok ")
+    limit = 4096 + 512 * cost + (0 if ok else 512 * n)
+    if used > limit:
+        cls = "finding:dyn-seq-zero-width-alloc " if not mwp else ""
+        return "%sdecoding %d input bytes allocated %d bytes; model count %d (limit %d)" % (cls, n, used, cost, limit)
+    return None
+
 PROPS = {
     "C01": {
         "gens": ["C01"],
@@ -209,10 +248,12 @@ PROPS = {
     },
     "C18": {
         "gens": ["C18"],
-        "rule": "`dynser <schema> <json>` on every node kind (incl. char, usize/isize, 128-bit, nested options, non-string-keyed maps, schema-of-schema) and random schemas x type-correct / near-miss / unrelated JSON; oracle: no panic, and whatever is accepted decodes again and re-encodes to the same bytes (failures classified as the listed findings only when the schema has the listed shape); `dynde <schema> <bytes>` on valid encodings, truncations, corruptions, random bytes, adversarial length prefixes under the counting allocator (bound 512*len+4096; the zero-width-element class is the listed finding, probed with a 2^16 claim); non-trivial = distinct op line",
+        "project": c18_project,
+        "joint": c18_joint,
+        "rule": "`dynser <schema> <json>` on every node kind (incl. char, usize/isize, 128-bit, nested options, non-string-keyed maps, schema-of-schema) and random schemas x type-correct / near-miss / unrelated JSON; oracle: no panic, and whatever is accepted decodes again and re-encodes to the same bytes (failures classified as the listed findings only when the schema has the listed shape); `dynde <schema> <bytes>` on valid encodings, truncations, corruptions, random bytes, adversarial length prefixes under the counting allocator (harness bound 512*len+4096; joint rule with the model: measured bytes <= 4096 + 512*allocDyn (+512*len when decoding fails), and allocDyn <= allocW'*(len+1) re-evaluated per case whenever minWidthPos holds; the zero-width-element class is the listed finding, probed with a 2^16 claim); non-trivial = distinct op line",
         "nontrivial": lambda op, a: True,
         "diff_is_witness": False,
-        "trusted_base": COMMON_TB + ["serde_json MODELLED", "PARTIAL: real allocation is observed with a counting allocator; `allocDyn` is a cost model (number of Values / bytes), bounded by theorem only on the fragment without Enum/Map/Schema nodes", "stack depth is outside the model: decoding a schema VALUE nested ~30k deep overflows the real stack (observed, not checked)"],
+        "trusted_base": COMMON_TB + ["serde_json MODELLED", "PARTIAL: real allocation is observed with a counting allocator; `allocDyn` is a cost model (number of Values / String bytes / map entries) bounded by theorem for every schema whose Seq elements have positive width; the factor 512 bytes per counted unit relating it to real bytes is an empirical constant (measured maximum printed as joint_stats.max_used_per_cost_unit), not a theorem", "stack depth is outside the model: decoding a schema VALUE nested ~30k deep overflows the real stack (observed, not checked)"],
         "assumptions": ["64-bit target", "schemas with sequences of zero-width elements get no corrupted-length inputs beyond the explicit probe (time proportional to the claim by construction)"],
     },
 }
